@@ -379,8 +379,11 @@ func (w *sortedWriter) handleRequests() {
 			var vs y.ValueStruct
 			if e.skipVlogAndSetThreshold(w.db.valueThreshold()) {
 				vs = y.ValueStruct{
-					Value:     e.Value,
-					Meta:      e.meta,
+					Value: e.Value,
+					// The value is stored inline, so the value pointer flag must not be
+					// set (see DB.writeToLSM). It is set on entries streamed out of a DB
+					// that kept the value in its value log, e.g. the entries of a backup.
+					Meta:      e.meta &^ bitValuePointer,
 					UserMeta:  e.UserMeta,
 					ExpiresAt: e.ExpiresAt,
 				}
